@@ -1,4 +1,4 @@
-//! C04 driver. Subcommand `gen`: write the case's Rust source into a scratch project, load the
+//! C04 driver. Subcommand `gen`: write the case's Rust source files into a scratch project, load the
 //! configuration through GenerateConfig::from_file (so that the default of default_parameter_case
 //! is the one config.rs gives), run generate_from_config in both modes and hand back types.ts and
 //! commands.ts. Also reports, per parameter, what syn sees of the type (path segments, kinds of
@@ -72,13 +72,18 @@ fn abs_type(src: &str) -> Value {
     }
 }
 
-/// case: {"id", "scratch": dir, "source": text, "default_case": str | null, "params": [{"name","ty"}]}
+/// case: {"id", "scratch": dir, "files": [[path, text]], "default_case": str | null, "params": [{"name","ty"}]}
 fn gen(case: &Value) -> Value {
     let scratch = case["scratch"].as_str().unwrap();
     fs::create_dir_all(scratch).unwrap();
     let dir = tempfile::Builder::new().prefix("c04-").tempdir_in(scratch).unwrap();
     fs::create_dir_all(dir.path().join("src")).unwrap();
-    fs::write(dir.path().join("src").join("lib.rs"), case["source"].as_str().unwrap()).unwrap();
+    // "files": [[relative path below src/, text], ...]
+    for f in case["files"].as_array().unwrap() {
+        let p = dir.path().join("src").join(f[0].as_str().unwrap());
+        fs::create_dir_all(p.parent().unwrap()).unwrap();
+        fs::write(p, f[1].as_str().unwrap()).unwrap();
+    }
     let plain = run_mode(dir.path(), "none", &case["default_case"]);
     let zod = run_mode(dir.path(), "zod", &case["default_case"]);
     let mut heck = Vec::new();
